@@ -79,7 +79,7 @@ def run(ctx):
             coef[-1] = coef[-2]
         if not any(coef):
             continue
-        q = {"id": len(queries) + 1, "p": p, "ncells": ncells, "r0": r0, "coef": coef, "A": A, "B": B, "C": C, "D": D, "msq": m * m, "lN": lN, "uN": uN}
+        q = {"id": len(queries) + 1, "p": p, "ncells": ncells, "r0": r0, "coef": coef, "A": A, "B": B, "C": C, "D": D, "msq": m * m, "lN": lN, "uN": uN, "mI": 0, "nth": 1}
         queries.append(q)
         info.append({"cu": cu, "nth": nth, "I": I, "m": m})
     r = ctx.tlc("GalerkinMC", "INIT Init\nNEXT Next\nCONSTANT NMax = 16\nINVARIANT IModes\nINVARIANT IBC\nINVARIANT Dump\nCHECK_DEADLOCK FALSE\n",
